@@ -105,6 +105,12 @@ fn cmp_proj<G: Ops>(what: &str, step: usize, c: &G::Proj, m: &Pt<G::F>) -> Resul
     if got != *m {
         return Err(format!("step {} ({}): crate register holds {} but the group law gives {}", step, what, pt_brief(&got), pt_brief(m)));
     }
+    // the crate's own equality must identify the result with the same point built from coordinates
+    // (a coordinate that is right modulo q but not reduced internally would compare unequal)
+    let canonical = proj_c::<G>(m);
+    if !cr("==", || G::op_eq(c, &canonical))? {
+        return Err(format!("step {} ({}): the register holds {} but the crate's == says it differs from that point built from its coordinates", step, what, pt_brief(m)));
+    }
     // is_zero must agree with Z = 0
     let iz = cr("is_zero", || G::op_is_zero(c))?;
     if iz != m.is_inf() {
@@ -117,6 +123,10 @@ fn cmp_aff<G: Ops>(what: &str, step: usize, c: &G::Aff, m: &Pt<G::F>) -> Result<
     let got = aff_m::<G>(c);
     if got != *m {
         return Err(format!("step {} ({}): crate affine register holds {} but expected {}", step, what, pt_brief(&got), pt_brief(m)));
+    }
+    // affine equality is structural: a finite point must equal the same coordinates built afresh
+    if !m.is_inf() && !cr("affine ==", || G::op_aff_eq(c, &aff_c::<G>(m)))? {
+        return Err(format!("step {} ({}): affine value {} does not compare equal to the same coordinates built afresh (non-canonical coordinate representation)", step, what, pt_brief(m)));
     }
     Ok(())
 }
